@@ -338,7 +338,7 @@ def handle (ds : DriverState) (line : String) : IO (String × DriverState) := do
       match ds.session, args.head?.bind unhexChars with
       | some sess, some c =>
         if sess.st.attached then
-          let atStep := (args[1]?.bind String.toNat?).getD 0
+          let atStep := (args[1]?.bind String.toNat?).getD 0 + sess.st.steps
           return ("ok", { ds with session := some { sess with st := { sess.st with inbox := sess.st.inbox ++ [⟨atStep, c⟩] } } })
         else return ("driver-error no umbilical", ds)
       | _, _ => return ("driver-error no session or bad hex", ds)
